@@ -81,7 +81,7 @@ TCheckRef ==
   /\ HasEv("check_ref") /\ ver = "none" /\ e = 2
   /\ Ev.ok \in Exp                         \* passes iff every value lies in its documented range
   /\ Ev.obs = obs0                         \* checking by reference leaves the builder unchanged
-  /\ IF Ev.ok THEN ValsOk(Ev) /\ Ev.err = "" ELSE Ev.err # ""
+  /\ IF Ev.ok THEN ValsOk(Ev) /\ Ev.err = "" ELSE Ev.err # "" /\ Ev.vals = <<>> /\ Ev.on = <<>>
   /\ ver' = IF Ev.ok THEN "pass" ELSE "reject"
   /\ cerr' = Ev.err
   /\ Adv /\ UNCHANGED <<x, obs0, ures, cres1, cres2>>
@@ -89,8 +89,8 @@ TCheckRef ==
 \* fit / fit_with / transform called directly on the unchecked builder
 TCallU ==
   /\ HasEv("call") /\ Ev.who = "unchecked" /\ ver # "none"
-  /\ Ev.form \in Doc[A].forms /\ ures[Ev.form].res = "none"
-  /\ ver = "reject" => Ev.res = "err" /\ Ev.err = Doc[A].pre \o cerr      \* exactly that error; no panic, no model
+  /\ Ev.form \in Doc[A].forms /\ ures[Ev.form].res = "none" /\ Ev.run = 1
+  /\ ver = "reject" => Ev.res = "err" /\ Ev.err = Doc[A].pre \o cerr /\ Ev.dig = <<0, 0>>   \* exactly that error; no panic, no model
   /\ ures' = [ures EXCEPT ![Ev.form] = ResOf(Ev)]
   /\ Adv /\ UNCHANGED <<x, obs0, ver, cerr, cres1, cres2>>
 
@@ -98,14 +98,14 @@ TCallU ==
 TCheckRefAgain ==
   /\ HasEv("check_ref_again") /\ ver # "none"
   /\ Ev.ok = (ver = "pass") /\ Ev.err = cerr /\ Ev.obs = obs0
-  /\ Ev.ok => ValsOk(Ev)
+  /\ IF Ev.ok THEN ValsOk(Ev) ELSE Ev.vals = <<>> /\ Ev.on = <<>>
   /\ Adv /\ UNCHANGED <<x, obs0, ver, cerr, ures, cres1, cres2>>
 
 \* checking by value: same verdict, same error, same parameters
 TCheck ==
   /\ HasEv("check") /\ ver # "none"
   /\ Ev.ok = (ver = "pass") /\ Ev.err = cerr
-  /\ Ev.ok => ValsOk(Ev)
+  /\ IF Ev.ok THEN ValsOk(Ev) ELSE Ev.vals = <<>> /\ Ev.on = <<>>
   /\ Adv /\ UNCHANGED <<x, obs0, ver, cerr, ures, cres1, cres2>>
 
 TCallC ==
@@ -115,13 +115,15 @@ TCallC ==
      \/ Ev.run = 2 /\ cres2[Ev.form].res = "none" /\ cres2' = [cres2 EXCEPT ![Ev.form] = ResOf(Ev)] /\ UNCHANGED cres1
   /\ Adv /\ UNCHANGED <<x, obs0, ver, cerr, ures>>
 
-\* a valid builder behaves exactly like its checked form.  Two runs of the checked form that differ
-\* (an algorithm that is not reproducible) make only the kind of outcome comparable.
+\* a valid builder behaves exactly like its checked form: same kind of outcome, same error, and the
+\* same model.  Only the model digest has an escape: if two runs of the *checked* form disagree with
+\* each other (an algorithm that is not reproducible) the digest is not comparable.
 SameAsChecked(fm) ==
   LET uu == ures[fm]  c1 == cres1[fm]  c2 == cres2[fm] IN
   /\ c1.res # "none" /\ c2.res # "none"
-  /\ uu.res \in {c1.res, c2.res}
-  /\ c1 = c2 => uu = c1
+  /\ uu.res = c1.res /\ c1.res = c2.res
+  /\ uu.err = c1.err /\ c1.err = c2.err
+  /\ c1.dig = c2.dig => uu.dig = c1.dig
 
 TDone ==
   /\ HasEv("done") /\ ver # "none" /\ e = Len(Case.ev)
